@@ -280,6 +280,23 @@ func TestVerifDriver(t *testing.T) {
 			emit("ecb.hom", M{"a": vInts(sc), "b": vInts(rndScalar().Bytes())})
 		}
 	}
+	// points with edge coordinates: IsOnCurve must accept them (and reject their neighbours), Add / Double must
+	// treat them like any other point
+	crafted := craftedPoints(r, rndScalar)
+	stride := vEnvInt("VERIF_SPECIAL_STRIDE", 1)
+	for i, c := range crafted {
+		if i%stride != int(vSeed())%stride {
+			continue
+		}
+		emit("ecb.OnCurve", M{"x": vLimbs(c.x), "y": vLimbs(c.y)})
+		emit("ecb.OnCurve", M{"x": vLimbs(c.x), "y": vLimbs(new(big.Int).Mod(new(big.Int).Add(c.y, big.NewInt(1)), sp))})
+		if i%4 == 0 {
+			addEv(c, c, true)
+			addEv(c, neg(c), false)
+			addEv(c, crafted[(i+1)%len(crafted)], false)
+			addEv(g, c, false)
+		}
+	}
 	for k := 0; k < n; k++ {
 		a := refMul(rndScalar(), g)
 		b := refMul(rndScalar(), g)
@@ -325,6 +342,66 @@ func TestVerifDriver(t *testing.T) {
 		}
 		emit("ecb.OnCurve", M{"x": vLimbs(x), "y": vLimbs(y)})
 	}
+}
+
+// craftedPoints: genuine curve points with coordinates at the edges of the field (tiny x, tiny y, x or y in [n, p),
+// close to p), where reductions and range checks of an implementation are exercised.  p = 3 (mod 4) and p = 7
+// (mod 9), so square and cube roots are single exponentiations; each root is verified before use.
+func craftedPoints(r interface{ Intn(int) int }, rnd func() *big.Int) []pt {
+	sqrtP := func(v *big.Int) *big.Int {
+		e := new(big.Int).Rsh(new(big.Int).Add(sp, big.NewInt(1)), 2)
+		y := new(big.Int).Exp(v, e, sp)
+		if new(big.Int).Mod(new(big.Int).Mul(y, y), sp).Cmp(new(big.Int).Mod(v, sp)) != 0 {
+			return nil
+		}
+		return y
+	}
+	cbrtP := func(v *big.Int) *big.Int {
+		e := new(big.Int).Div(new(big.Int).Add(sp, big.NewInt(2)), big.NewInt(9))
+		x := new(big.Int).Exp(v, e, sp)
+		c := new(big.Int).Exp(x, big.NewInt(3), sp)
+		if c.Cmp(new(big.Int).Mod(v, sp)) != 0 {
+			return nil
+		}
+		return x
+	}
+	fromX := func(x *big.Int) *pt {
+		v := new(big.Int).Exp(x, big.NewInt(3), sp)
+		v.Add(v, big.NewInt(7)).Mod(v, sp)
+		if y := sqrtP(v); y != nil {
+			if r.Intn(2) == 0 {
+				y = new(big.Int).Sub(sp, y)
+			}
+			return &pt{new(big.Int).Set(x), y}
+		}
+		return nil
+	}
+	fromY := func(y *big.Int) *pt {
+		v := new(big.Int).Mul(y, y)
+		v.Sub(v, big.NewInt(7)).Mod(v, sp)
+		if x := cbrtP(v); x != nil {
+			return &pt{x, new(big.Int).Set(y)}
+		}
+		return nil
+	}
+	var out []pt
+	add := func(q *pt) {
+		if q != nil {
+			out = append(out, *q)
+		}
+	}
+	gap := new(big.Int).Sub(sp, sn) // the coordinates in [n, p)
+	for k := int64(1); k <= 24; k++ {
+		add(fromX(big.NewInt(k)))                        // tiny x
+		add(fromY(big.NewInt(k)))                        // tiny y
+		add(fromX(new(big.Int).Sub(sp, big.NewInt(k)))) // x just below p
+		add(fromY(new(big.Int).Sub(sp, big.NewInt(k)))) // y just below p
+		add(fromX(new(big.Int).Add(sn, big.NewInt(k-1)))) // x = n, n+1, ...
+		add(fromY(new(big.Int).Add(sn, big.NewInt(k-1))))
+		add(fromX(new(big.Int).Add(sn, new(big.Int).Mod(rnd(), gap)))) // x anywhere in [n, p)
+		add(fromY(new(big.Int).Add(sn, new(big.Int).Mod(rnd(), gap))))
+	}
+	return out
 }
 
 func bytesOfOnes(n int) []byte {
